@@ -41,7 +41,7 @@ REQUIRED = ['check:' + g for g in GENERATORS] + ['check:theta_ignores_test_data'
                                                  'folds_checked', 'shuffles_observed', 'inputs_with_bootstrap_copies', 'check:bootstrap_crossval_folds',
                                                  'inputs_with_bootstrap_copies_grouped_by_index']
 REACH = GENERATORS + ['crossval', 'RDMs.subset', 'RDMs.subsample', 'RDMs.subset_pattern', 'fit_regress']
-INCONCLUSIVE_IF = ['bootstrap_crossval_untraceable']
+INCONCLUSIVE_IF = []
 FAIL_KEYS = ['generator', 'what', 'k', 'fitter', 'dimension', 'scheme']
 TIME_BUDGET = {'quick': 80, 'thorough': 800}
 
@@ -513,7 +513,10 @@ def run_bootstrap_crossval_folds(ctx):
         return
     rets = tr.returns('sets_k_fold')
     if not rets:
-        ctx.count('bootstrap_crossval_untraceable')
+        # every one of the N=4 bootstrap samples held fewer distinct subjects than k_rdm (they are marked NaN and no
+        # folds are cut): nothing to observe in this configuration.  The run as a whole is inconclusive only when NO
+        # configuration yields a traced fold (REQUIRED 'check:bootstrap_crossval_folds')
+        ctx.count('bootstrap_crossval_no_fold_cut')
         return
     for ev in rets:
         train_set, test_set, _ = ev['out']
